@@ -266,3 +266,16 @@ Proof.
   split; [vm_compute; reflexivity|]. split; [vm_compute; reflexivity|].
   split; vm_compute; discriminate.
 Qed.
+
+Print Assumptions term_eqb_eq.
+Print Assumptions decrypt_inv.
+Print Assumptions dh_normal_form.
+Print Assumptions unmask_mask.
+Print Assumptions xx_wrong_passphrase.
+Print Assumptions kk_key_mismatch.
+Print Assumptions responder_silent.
+Print Assumptions no_forgery_faithful_false.
+Print Assumptions tamper_version_refuted_run.
+Print Assumptions tamper_version_refuted.
+Print Assumptions version_agreement_if_bytes_kept.
+Print Assumptions v0_large_payload_rejected.
